@@ -72,6 +72,30 @@ R8  5 + 2 + 3: the sleep settings the client is *configured* with.  Subjects by 
       L8  the number 0 is not None and falsy, and it is a sleeptime / a jitter the property quantifies over (band = a point)
       L9  a falsy number equals 0, a truthy number differs from 0   (truthiness of int / float is `!= 0`)
       L10 int(x) = x and float(x) = x for a number x
+R9  1 + 3 + 2 + 5/6: the registration decorators `handle(command)` / `catch_all()` (public front ends of register_task) as a
+    symbolic application `front_end(..)(FUNC)`: FUNC is a symbol, never a value.  The decorator value is located by role
+    through def-use substitution of what the front end returns (3): a nested function / lambda (analysed as a function of
+    its first parameter, closure variables looked up in the enclosing function), `functools.partial(self.m, a..)` (= the
+    method m with its leading parameters bound to a.. - argument binding into a package callee), or the result of another
+    front end (`catch_all()` returning `self.handle(KEY)`); helper methods that receive FUNC as a plain argument are
+    followed the same way (resolved callees, 1).  Three necessary conditions per front end:
+      - what the application evaluates to (the leaves of the returned expressions; a callee that ends without
+        `return <value>` yields None) is FUNC itself on every path - a definite None / constant is a violation (the
+        decorated name, and every decorator stacked on top of it, then gets that value instead of the function), a value
+        the rule cannot classify (a wrapper, an unresolved call) is undecided;
+      - FUNC is handed to register_task as its handler exactly once per application (2: CFG of the decorator - no
+        hand-over in a cycle, no two on one path, no ENTRY->EXIT path without one; paths that raise are not EXIT paths);
+      - the key of that hand-over: for `handle` the may-flow def-use closure of the key term (through locals, bound
+        arguments and closure variables) contains the command parameter; for `catch_all` the key constant-folds (6) to
+        -1, the key get_handlers falls back to (R2).  When the key is computed from a constant argument of the analysed
+        code (`self.handle(-1)`), the branches that constant decides are removed from a copy of the CFG and the reaching
+        definitions of the pruned CFG are folded (5 + 2: constant propagation of a literal of the analysed code).
+    Lemmas (each one line):
+      L11 `@d` above `def f` binds f to d(f); stacked decorators apply bottom-up, each to the result of the one below
+      L12 functools.partial(g, a..)(x) = g(a.., x)
+      L13 a call of a function every path of which ends without `return <value>` evaluates to None
+      L14 None is falsy, a function object is truthy   (`g(f) or f` is f when g returns None; `(g(f), f)[1]` is f)
+      L15 an int literal c is truthy iff c != 0, isinstance(c, int) holds and c is not None
 """
 
 from __future__ import annotations
@@ -83,7 +107,7 @@ from dataclasses import replace
 from csverif import absint
 from csverif.absint import SymPoly, sympoly
 from csverif.alias import Alias
-from csverif.astutil import assignments_to, body_walk, compare_parts, const_eval, dotted, fn_calls, kwarg, NotConst, params, src, statements
+from csverif.astutil import assignments_to, bind_args, body_walk, compare_parts, const_eval, dotted, fn_calls, kwarg, NotConst, params, src, statements
 from csverif.cfg import ENTRY, EXIT
 from csverif.q import FuncView, dominating_conditions, inline, raise_class
 
@@ -151,13 +175,18 @@ def run(ctx):
         "which get_handlers looks up the on_<command> method, constant-folded per member of BeaconCommand (the dispatcher's "
         "complete vocabulary) and compared with the documented name; the value run() leaves in the attributes get_sleep_time "
         "reads, followed path-wise for the two cases of a *given* override parameter (not None and truthy / not None and 0): "
-        "it must be the parameter itself, i.e. the choice between override and beacon setting is decided by None-ness only.  No /repo code is run or interpreted on data chosen by "
+        "it must be the parameter itself, i.e. the choice between override and beacon setting is decided by None-ness only; the registration decorators "
+        "handle(command) / catch_all() as a symbolic application to one function symbol (nested function, lambda, functools.partial of a method, delegation to "
+        "another front end): the application evaluates to the decorated function itself, hands it to register_task exactly once on every path, under a key "
+        "computed from `command` / under the catch-all key -1.  No /repo code is run or interpreted on data chosen by "
         "the checker: the beacon id is the top integer, the names are strings of unknown length, the command cases are the "
         "enum members parsed from c_c2.py."
     )
     rep.not_decided = ["behaviour of the loop against a live server", "that handlers themselves behave",
                        "the on_empty_task lookup for the empty task (command id None / a falsy member)",
-                       "that callers (the command line) hand the user's sleeptime / jitter to run() unchanged"]
+                       "that callers (the command line) hand the user's sleeptime / jitter to run() unchanged",
+                       "decorators that hand back / register a wrapper of the decorated function instead of the function itself (undecided)",
+                       "that handle() files an enum member under exactly its integer value (only: the key is computed from the command argument)"]
     rep.trusted_base = [
         "CPython ast", "networkx dominators", "interval/parity/length domains and SymPoly in csverif/absint.py",
         "may-alias / mutation analysis in csverif/alias.py",
@@ -172,6 +201,9 @@ def run(ctx):
         "random.uniform(a, b) lies between a and b, random.random() in [0, 1]; an affine function of a draw in [lo, hi] ranges between its values at lo and hi",
         "0 is a number that is not None and falsy, and a sleeptime / jitter of 0 is a configuration the property quantifies over; a falsy number equals 0, "
         "a truthy number differs from 0; int(x) = x and float(x) = x for a number x; stores of self.sleeptime / self.jitter outside run() are not part of the configuration step",
+        "`@d` above `def f` binds f to d(f), stacked decorators apply bottom-up; functools.partial(g, a..)(x) = g(a.., x); a call of a function that ends without `return <value>` "
+        "evaluates to None; None is falsy, a function object is truthy; an int literal c is truthy iff c != 0, is an instance of int and is not None; "
+        "handle and catch_all are the public registration decorators of HttpBeaconClient (their docstrings; docs/tutorials/minimal_beacon_client.rst for handle), -1 is the catch-all key (R2)",
     ]
     r1(ctx)
     r2(ctx)
@@ -181,6 +213,7 @@ def run(ctx):
     r6(ctx)
     r7(ctx)
     r8(ctx)
+    r9(ctx)
 
 
 # ------------------------------------------------------------------------------------------------ generic helpers
@@ -2091,3 +2124,464 @@ def r8(ctx):
     if not subjects:
         ctx.undecided("R8", "AGREE", run_f, "an explicit override is the value the client sleeps by",
                       f"run() stores none of the attributes get_sleep_time reads ({read}); the configuration of the sleep settings was not located")
+
+
+# ------------------------------------------------------------------------------------------------ R9
+_FUNC, _NONE, _CONST, _UNK = "func", "none", "const", "unknown"
+_NONE_KEY = object()  # the key expression is the constant None
+_MAX_FRAMES = 8
+
+
+class _Frame:
+    """One function of the symbolic application `front_end(..)(FUNC)`.  `subject` is the parameter that holds FUNC (None
+    in a decorator *factory*, which has not received the function yet), `env` binds parameters to the argument
+    expressions of the caller (expression, frame of the caller, statement of the caller that evaluates it), `top` marks the
+    decorator itself (as opposed to a helper method it calls), `parent` is the lexically enclosing frame of a nested
+    def / lambda (closure variables are looked up there)."""
+
+    def __init__(self, f, subject=None, env=None, parent=None, depth=0, top=False):
+        self.f, self.fn, self.subject, self.env, self.parent, self.depth, self.top = f, f.node, subject, dict(env or {}), parent, depth, top
+
+
+class _Outcome:
+    """What one decorator value does when it is applied to FUNC: `reg` = (once | bad | unknown | never, detail) for the
+    hand-over to register_task, `keys` = [(key expression, frame, statement)] of those hand-overs, `kinds` = the values
+    the application may evaluate to {(func | none | const | unknown, detail)}."""
+
+    def __init__(self, reg, keys=(), kinds=(), what=""):
+        self.reg, self.keys, self.kinds, self.what = reg, list(keys), set(kinds), what
+
+
+class _DecoratorModel:
+    """Def-use / argument-binding model of the registration decorators (no code is run: FUNC stays a symbol, keys stay
+    terms; the only constants are those of the analysed code)."""
+
+    def __init__(self, ctx):
+        from csverif.cfg import CFG
+        from csverif.loader import Func
+
+        self.ctx, self._CFG, self._Func = ctx, CFG, Func
+        self.reg = ctx.repo.func("client.HttpBeaconClient.register_task")
+        ps = params(self.reg.node)
+        self.K, self.F = (ps[1], ps[2]) if len(ps) >= 3 else (None, None)
+        self._cfgs, self._synth = {}, []
+
+    # ---- plumbing
+    def cfg(self, fn):
+        hit = self._cfgs.get(id(fn))
+        if hit is None or hit[0] is not fn:
+            hit = (fn, self._CFG(fn))
+            self._cfgs[id(fn)] = hit
+        return hit[1]
+
+    def func_for(self, frame, node, label):
+        for f in frame.f.module.funcs.values():
+            if f.node is node:
+                return f
+        f = self._Func(frame.f.module, f"{frame.f.qualname}.{label}", node, frame.f.cls, frame.f)
+        self._synth.append(f)
+        return f
+
+    def method(self, frame, e):
+        """the method of the client class that `self.<name>` (expression `e`) denotes, else None"""
+        if not (isinstance(e, ast.Attribute) and isinstance(e.value, ast.Name) and e.value.id == "self"):
+            return None
+        probe = ast.copy_location(ast.Call(func=e, args=[], keywords=[]), e)
+        try:
+            cal = self.ctx.rs.resolve_call(frame.f, probe)
+        except Exception:
+            return None
+        if cal.kind == "func" and cal.func is not None and cal.func.cls:
+            return cal.func
+        return None
+
+    def is_reg(self, f):
+        return f is not None and f.fq == self.reg.fq
+
+    @staticmethod
+    def _unknown(why):
+        return _Outcome(("unknown", why), kinds={(_UNK, why)}, what=why)
+
+    # ---- the decorator values a factory may return
+    def factory(self, frame):
+        if frame.depth > _MAX_FRAMES:
+            return [self._unknown("the chain of delegating methods is too deep")]
+        cfg = self.cfg(frame.fn)
+        outs = []
+        if cfg.falls_off_end():
+            outs.append(_Outcome(("bad", f"{frame.f.qualname} may return no decorator at all (falls off the end)"), kinds={(_UNK, "no decorator")}))
+        for ret in cfg.return_stmts():
+            if not cfg.reaches(ENTRY, cfg.node(ret)):
+                continue
+            if ret.value is None or _is_none(ret.value):
+                outs.append(_Outcome(("bad", f"{frame.f.qualname} returns None instead of a decorator"), kinds={(_UNK, "no decorator")}))
+                continue
+            outs.extend(self.decorator_value(frame, inline(frame.fn, ret.value), ret))
+        return outs
+
+    def _nested_def(self, frame, name):
+        defs = [s for s in statements(frame.fn) if isinstance(s, (ast.FunctionDef, ast.AsyncFunctionDef)) and s.name == name]
+        if len(defs) == 1 and not assignments_to(frame.fn, name) and name not in params(frame.fn):
+            return defs[0]
+        return None
+
+    def decorator_value(self, frame, v, at):
+        if isinstance(v, ast.IfExp):
+            return self.decorator_value(frame, v.body, at) + self.decorator_value(frame, v.orelse, at)
+        if isinstance(v, ast.Name):
+            d = self._nested_def(frame, v.id)
+            if d is not None:
+                ps = params(d)
+                if not ps or isinstance(d, ast.AsyncFunctionDef):
+                    return [self._unknown(f"the nested function `{v.id}` takes no positional parameter")]
+                return [self.apply(_Frame(self.func_for(frame, d, d.name), ps[0], None, frame, frame.depth + 1, top=True))]
+            if v.id in frame.env and not assignments_to(frame.fn, v.id):
+                ex, fr, at2 = frame.env[v.id]
+                return self.decorator_value(fr, inline(fr.fn, ex), at2)
+            return [self._unknown(f"the returned `{v.id}` is not a nested function")]
+        if isinstance(v, ast.Lambda):
+            ps = params(v)
+            if not ps:
+                return [self._unknown("the returned lambda takes no parameter")]
+            d = ast.FunctionDef(name="_lambda", args=v.args, body=[ast.copy_location(ast.Return(value=v.body), v.body)], decorator_list=[], returns=None, type_comment=None)
+            if "type_params" in ast.FunctionDef._fields:
+                d.type_params = []
+            ast.fix_missing_locations(ast.copy_location(d, v))
+            return [self.apply(_Frame(self.func_for(frame, d, "<lambda>"), ps[0], None, frame, frame.depth + 1, top=True))]
+        if isinstance(v, ast.Call):
+            name = dotted(v.func) or ""
+            if name.split(".")[-1] == "partial" and v.args and not any(isinstance(a, ast.Starred) for a in v.args) and all(k.arg for k in v.keywords):
+                m = self.method(frame, inline(frame.fn, v.args[0]))
+                if m is None:
+                    return [self._unknown(f"`{src(v)[:50]}` does not bind a method of the client")]
+                pos = params(m.node)[1:]
+                given = v.args[1:]
+                kw = {k.arg: k.value for k in v.keywords}
+                if len(given) >= len(pos) or pos[len(given)] in kw:
+                    return [self._unknown(f"`{src(v)[:50]}` leaves no positional parameter for the decorated function")]
+                env = {p: (a, frame, at) for p, a in zip(pos, given)}
+                env.update({k: (a, frame, at) for k, a in kw.items()})
+                return [self.apply(_Frame(m, pos[len(given)], env, None, frame.depth + 1, top=True))]
+            m = self.method(frame, v.func)
+            if m is not None and not self.is_reg(m) and m.fq != frame.f.fq:
+                # delegation to another front end: catch_all() -> self.handle(KEY)
+                env = {p: (a, frame, at) for p, a in bind_args(v, m.node, skip_self=True).items() if a is not None}
+                return self.factory(_Frame(m, None, env, None, frame.depth + 1))
+        return [self._unknown(f"the returned `{src(v)[:50]}` is not a decorator form the rule understands")]
+
+    # ---- a function applied to FUNC
+    def apply(self, frame):
+        if frame.depth > _MAX_FRAMES:
+            return self._unknown("the chain of helper methods is too deep")
+        fn, P = frame.fn, frame.subject
+        if self.is_reg(frame.f):
+            if P != self.F:
+                return _Outcome(("bad", f"the decorated function is handed to register_task as its `{P}`, not as the handler"), kinds=self.return_kinds(frame), what="register_task")
+            return _Outcome(("once", "register_task(key, func)"), [(ast.Name(id=self.K, ctx=ast.Load()), frame, None)], self.return_kinds(frame), "register_task")
+        if assignments_to(fn, P):
+            return self._unknown(f"`{frame.f.qualname}` rebinds the parameter that holds the decorated function")
+        fv = FuncView.of(fn)
+        cfg = self.cfg(fn)
+        local_defs = {s.name for s in statements(fn) if isinstance(s, (ast.FunctionDef, ast.AsyncFunctionDef))}
+        events, bad, unknown = [], [], []
+        for c in fn_calls(fn):
+            m = self.method(frame, c.func)
+            if m is None:
+                continue
+            bound = {p: a for p, a in bind_args(c, m.node, skip_self=True).items() if a is not None}
+            plain = [p for p, a in bound.items() if _is_name(inline(fn, a, stop=frozenset({P})), P)]
+            mentions = [p for p, a in bound.items() if P in _loads(inline(fn, a, stop=frozenset({P})))]
+            if self.is_reg(m):
+                h = bound.get(self.F)
+                hi = inline(fn, h, stop=frozenset({P})) if h is not None else None
+                if hi is None:
+                    unknown.append(f"`{src(c)[:50]}` passes no recognisable handler")
+                    continue
+                if not _is_name(hi, P):
+                    if P in _loads(hi) or isinstance(hi, ast.Lambda) or (isinstance(hi, ast.Name) and hi.id in local_defs):
+                        unknown.append(f"`{src(c)[:50]}` registers a value built from the decorated function")
+                    else:
+                        bad.append(f"`{src(c)[:50]}` registers `{src(hi)[:30]}`, not the decorated function")
+                    continue
+            elif len(plain) != 1 or len(mentions) != 1:
+                if mentions:
+                    unknown.append(f"`{src(c)[:50]}` hands a value built from the decorated function to `{m.qualname}`")
+                continue
+            st = fv.stmt_of(c)
+            sub = self.apply(_Frame(m, self.F if self.is_reg(m) else plain[0], {p: (a, frame, st) for p, a in bound.items()}, None, frame.depth + 1))
+            if sub.reg[0] == "never":
+                continue
+            if sub.reg[0] == "bad":
+                bad.append(sub.reg[1])
+            elif sub.reg[0] == "unknown":
+                unknown.append(sub.reg[1])
+            elif _expr_conditions(fv, c) or any(isinstance(a, (ast.ListComp, ast.SetComp, ast.DictComp, ast.GeneratorExp, ast.Lambda)) for a in fv.ancestors(c)) or st is None or not cfg.has(st):
+                unknown.append(f"`{src(c)[:50]}` is evaluated conditionally / repeatedly inside an expression")
+            else:
+                events.append((st, c, sub))
+        kinds = self.return_kinds(frame)
+        what = frame.f.qualname
+        if bad:
+            return _Outcome(("bad", "; ".join(bad)), kinds=kinds, what=what)
+        if unknown:
+            return _Outcome(("unknown", "; ".join(unknown)), kinds=kinds, what=what)
+        if not events:
+            if any(isinstance(n, ast.Attribute) and n.attr == "task_map" for n in ast.walk(fn)):
+                return _Outcome(("unknown", f"`{what}` touches self.task_map itself"), kinds=kinds, what=what)
+            if not frame.top:
+                return _Outcome(("never", ""), kinds=kinds, what=what)
+            for c in fn_calls(fn):
+                if any(P in _loads(a) for a in list(c.args) + [k.value for k in c.keywords]):
+                    try:
+                        kind = self.ctx.rs.resolve_call(frame.f, c).kind
+                    except Exception:
+                        kind = "func"
+                    if kind in ("func", "class", "partial", "struct"):
+                        return _Outcome(("unknown", f"`{what}` hands the decorated function to `{src(c.func)[:30]}`, which the rule does not follow"), kinds=kinds, what=what)
+            return _Outcome(("bad", f"`{what}` never hands the decorated function to register_task"), kinds=kinds, what=what)
+        problems = []
+        nodes = [cfg.node(st) for st, _c, _s in events]
+        for (st, c, _s), n in zip(events, nodes):
+            if cfg.in_cycle(n):
+                problems.append(f"`{src(c)[:40]}` is inside a loop")
+        for i, a in enumerate(nodes):
+            for b in nodes[i + 1:]:
+                if a == b or cfg.reaches(a, b) or cfg.reaches(b, a):
+                    problems.append("the function is registered more than once by one application of the decorator")
+        if cfg.reaches(ENTRY, EXIT, avoiding=nodes):
+            problems.append(f"there is a path through `{what}` that returns without registering the function")
+        keys = [k for _st, _c, sub in events for k in sub.keys]
+        if problems:
+            return _Outcome(("bad", "; ".join(sorted(set(problems)))), keys, kinds, what)
+        return _Outcome(("once", f"{len(events)} hand-over(s), one on every path"), keys, kinds, what)
+
+    # ---- what the application evaluates to
+    def return_kinds(self, frame):
+        cfg = self.cfg(frame.fn)
+        out = set()
+        if cfg.falls_off_end():
+            out.add((_NONE, f"`{frame.f.qualname}` may end without returning a value"))
+        for ret in cfg.return_stmts():
+            if not cfg.reaches(ENTRY, cfg.node(ret)):
+                continue
+            if ret.value is None:
+                out.add((_NONE, f"bare `return` in `{frame.f.qualname}`"))
+            else:
+                out |= self.kinds(frame, ret.value)
+        return out
+
+    def kinds(self, frame, e, depth=0):
+        fn, P = frame.fn, frame.subject
+        if depth > 8 or assignments_to(fn, P):
+            return {(_UNK, f"`{src(e)[:40]}`")}
+        e = inline(fn, e, stop=frozenset({P}))
+        if isinstance(e, ast.NamedExpr):
+            return self.kinds(frame, e.value, depth + 1)
+        if _is_name(e, P):
+            return {(_FUNC, "")}
+        if isinstance(e, ast.Constant):
+            return {(_NONE, f"`return None` in `{frame.f.qualname}`")} if e.value is None else {(_CONST, f"`{src(e)[:30]}` in `{frame.f.qualname}`")}
+        if isinstance(e, ast.IfExp):
+            return self.kinds(frame, e.body, depth + 1) | self.kinds(frame, e.orelse, depth + 1)
+        if isinstance(e, ast.BoolOp):
+            # None is falsy, a function object is truthy
+            cur = self.kinds(frame, e.values[0], depth + 1)
+            for nxt in e.values[1:]:
+                ks = {k for k, _d in cur}
+                short = {_FUNC} if isinstance(e.op, ast.Or) else {_NONE}
+                cont = {_NONE} if isinstance(e.op, ast.Or) else {_FUNC}
+                if ks <= short:
+                    return cur
+                if ks <= cont:
+                    cur = self.kinds(frame, nxt, depth + 1)
+                elif ks <= short | cont:
+                    cur = {(k, d) for k, d in cur if k in short} | self.kinds(frame, nxt, depth + 1)
+                else:
+                    return {(_UNK, f"`{src(e)[:40]}`")}
+            return cur
+        if isinstance(e, ast.Subscript) and isinstance(e.value, (ast.Tuple, ast.List)) and not any(isinstance(x, ast.Starred) for x in e.value.elts):
+            i = _c(e.slice)
+            if isinstance(i, int) and not isinstance(i, bool) and -len(e.value.elts) <= i < len(e.value.elts):
+                return self.kinds(frame, e.value.elts[i], depth + 1)
+        if isinstance(e, ast.Call):
+            m = self.method(frame, e.func)
+            if m is not None and frame.depth < _MAX_FRAMES:
+                bound = {p: a for p, a in bind_args(e, m.node, skip_self=True).items() if a is not None}
+                plain = [p for p, a in bound.items() if _is_name(inline(fn, a, stop=frozenset({P})), P)]
+                if len(plain) == 1:
+                    return self.return_kinds(_Frame(m, plain[0], None, None, frame.depth + 1))
+        return {(_UNK, f"`{src(e)[:40]}`")}
+
+    # ---- the key of a hand-over
+    @staticmethod
+    def _visible(frame, name):
+        return name in params(frame.fn) or bool(assignments_to(frame.fn, name))
+
+    def key_params(self, frame, e, out, depth=0):
+        """the unbound parameters {(frame, name)} the key `e` may be computed from: may-flow def-use closure through the
+        locals of the frame, the bound arguments of the callers and the closure variables of the enclosing frames"""
+        if depth > 10:
+            return
+        fn = frame.fn
+        for n in _chain_nodes(fn, e, all_defs=True):
+            if not (isinstance(n, ast.Name) and isinstance(n.ctx, ast.Load)):
+                continue
+            if n.id in params(fn):
+                if n.id in frame.env:
+                    ex, fr, _at = frame.env[n.id]
+                    self.key_params(fr, ex, out, depth + 1)
+                else:
+                    out.add((frame, n.id))
+            elif not assignments_to(fn, n.id) and frame.parent is not None and self._visible(frame.parent, n.id):
+                self.key_params(frame.parent, ast.Name(id=n.id, ctx=ast.Load()), out, depth + 1)
+
+    def _assume(self, frame):
+        """truth assumptions for the names visible in `frame` that are bound to an int constant of the analysed code:
+        an int constant c is truthy iff c != 0, is an instance of int and is not None; the constant None is falsy"""
+        assume, fr, shadow = {}, frame, set()
+        while fr is not None:
+            for p, (ex, efr, eat) in fr.env.items():
+                if p in shadow or assignments_to(fr.fn, p):
+                    continue
+                k = self.key_const(efr, ex, eat)
+                if isinstance(k, int) and not isinstance(k, bool):
+                    assume[p] = k != 0
+                    assume[f"isinstance({p}, int)"] = True
+                    assume[f"{p} is None"] = False
+                elif k is _NONE_KEY:
+                    assume[p] = False
+                    assume[f"{p} is None"] = True
+            shadow |= set(params(fr.fn)) | {n.id for n in body_walk(fr.fn) if isinstance(n, ast.Name) and isinstance(n.ctx, ast.Store)}
+            fr = fr.parent
+        return assume
+
+    def key_const(self, frame, e, at, depth=0):
+        """the constant the key expression `e` (evaluated at statement `at` of the frame) folds to, _NONE_KEY for the
+        constant None, None when it is not a single constant the folding determines"""
+        from csverif.q import specialise, tv_eval
+
+        if depth > 10 or e is None:
+            return None
+        fn = frame.fn
+        e2 = inline(fn, e)
+        if _is_none(e2):
+            return _NONE_KEY
+        k = _const(self.ctx, frame.f, e2)
+        if k is not None:
+            return k
+        if isinstance(e2, ast.IfExp):
+            t = tv_eval(inline(fn, e2.test), self._assume(frame))
+            alts = [e2.body] if t is True else [e2.orelse] if t is False else [e2.body, e2.orelse]
+            vals = [self.key_const(frame, a, at, depth + 1) for a in alts]
+            return vals[0] if all(v is not None and v is not _NONE_KEY and v == vals[0] and type(v) is type(vals[0]) for v in vals) else None
+        if isinstance(e2, ast.Call) and dotted(e2.func) == "int" and len(e2.args) == 1 and not e2.keywords:
+            v = self.key_const(frame, e2.args[0], at, depth + 1)
+            return v if isinstance(v, int) and not isinstance(v, bool) else None
+        if not isinstance(e2, ast.Name):
+            return None
+        name = e2.id
+        if name in params(fn) and not assignments_to(fn, name):
+            if name in frame.env:
+                ex, fr, at2 = frame.env[name]
+                return self.key_const(fr, ex, at2, depth + 1)
+            return None
+        defs = assignments_to(fn, name)
+        if not defs and name not in params(fn):
+            if frame.parent is not None and self._visible(frame.parent, name):
+                return self.key_const(frame.parent, ast.Name(id=name, ctx=ast.Load()), None, depth + 1)
+            return None
+        # several definitions: the ones that reach `at` once the branches decided by the constants in scope are pruned
+        cfg = specialise(self.cfg(fn), self._assume(frame))
+        if at is None or not cfg.has(at):
+            return None
+        use, nodes = cfg.node(at), []
+        for st, v in defs:
+            if v is None or not isinstance(st, ast.stmt) or not cfg.has(st):
+                return None
+            nodes.append((cfg.node(st), st, v))
+        if name in params(fn):
+            return None
+        alln = [n for n, _s, _v in nodes]
+        live = [(s, v) for n, s, v in nodes if n != use and cfg.reaches(ENTRY, n) and cfg.reaches(n, use, avoiding=[x for x in alln if x != n])]
+        if cfg.reaches(ENTRY, use, avoiding=alln):
+            return None
+        vals = [self.key_const(frame, v, s, depth + 1) for s, v in live]
+        if vals and all(v is not None and v == vals[0] and type(v) is type(vals[0]) for v in vals):
+            return vals[0]
+        return None
+
+
+def r9(ctx):
+    """The registration decorators are transparent registrations: for each public front end (`handle(command)`,
+    `catch_all()`) the value `front_end(..)(func)` evaluates to is `func` itself, and evaluating it hands `func` to
+    register_task exactly once, under a key computed from `command` / under the catch-all key get_handlers falls back to."""
+    cls_fq = "client.HttpBeaconClient"
+    try:
+        model = _DecoratorModel(ctx)
+    except Exception as e:  # register_task vanished
+        ctx.undecided("R9", "API", "dissect/cobaltstrike/client.py", "registration decorators", f"register_task was not located: {e}")
+        return
+    for name, call_text, keyed in (("handle", "handle(command)", True), ("catch_all", "catch_all()", False)):
+        T_BACK, T_REG = f"{call_text}(func) is func", f"{call_text}(func) registers func once"
+        T_KEY = "handle(command) registers under command" if keyed else "catch_all() registers under the catch-all key"
+        if not ctx.repo.has_func(f"{cls_fq}.{name}") or model.K is None:
+            for t in (T_BACK, T_REG, T_KEY):
+                ctx.undecided("R9", "API", "dissect/cobaltstrike/client.py", t, f"the registration front end `{name}` (or the (key, handler) parameters of register_task) was not located")
+            continue
+        M = ctx.repo.func(f"{cls_fq}.{name}")
+        root = _Frame(M)
+        outs = model.factory(root)
+        if not outs:
+            for t in (T_BACK, T_REG, T_KEY):
+                ctx.undecided("R9", "API", M, t, f"`{name}` has no reachable return statement; the decorator was not located")
+            continue
+        # ---- the decorated name keeps its function
+        kinds = set().union(*[o.kinds for o in outs])
+        lost = sorted(d for k, d in kinds if k in (_NONE, _CONST))
+        vague = sorted(d for k, d in kinds if k == _UNK)
+        if lost:
+            ctx.ob("R9", "API", M, T_BACK, False,
+                   f"`@client.{call_text}` replaces the decorated function by a value that is not the function ({'; '.join(lost)[:160]}): the decorated name is then bound to it, "
+                   f"and every further decorator stacked on top (one function serving several commands, or a command and the catch-all) registers that value instead of the function - "
+                   f"get_handlers returns a non-empty list for those commands, so there is no catch-all fallback and the task is dispatched to nobody")
+        elif vague or not kinds:
+            ctx.undecided("R9", "API", M, T_BACK, "what the decorator hands back is not determined: " + "; ".join(vague)[:200])
+        else:
+            ctx.ob("R9", "API", M, T_BACK, True, f"applying the decorator returned by `{name}` evaluates to the decorated function itself on every path")
+        # ---- one registration per application
+        bad = [o.reg[1] for o in outs if o.reg[0] in ("bad", "never")]
+        unk = [o.reg[1] for o in outs if o.reg[0] == "unknown"]
+        if bad:
+            ctx.ob("R9", "AGREE", M, T_REG, False, "the decorator does not register the decorated function exactly once: " + "; ".join(x or "register_task is never reached" for x in bad)[:300])
+        elif unk:
+            ctx.undecided("R9", "AGREE", M, T_REG, "the hand-over of the decorated function to register_task is not understood: " + "; ".join(unk)[:300])
+        else:
+            ctx.ob("R9", "AGREE", M, T_REG, True, "every application of the decorator hands the decorated function to register_task exactly once (" + "; ".join(sorted({o.reg[1] for o in outs})) + ")")
+        # ---- the key
+        keys = [k for o in outs if o.reg[0] == "once" for k in o.keys]
+        if not keys:
+            ctx.undecided("R9", "AGREE", M, T_KEY, "no hand-over to register_task with a located key")
+            continue
+        if keyed:
+            kps = params(M.node)[1:]
+            if not kps:
+                ctx.undecided("R9", "AGREE", M, T_KEY, f"`{name}` has no command parameter any more")
+                continue
+            indep = []
+            for e, fr, _st in keys:
+                leaves = set()
+                model.key_params(fr, e, leaves)
+                if not any(f2 is root and p in kps for f2, p in leaves):
+                    indep.append(src(inline(fr.fn, e))[:40])
+            ctx.ob("R9", "AGREE", M, T_KEY, not indep,
+                   f"the key handed to register_task is computed from the `{kps[0]}` argument" if not indep else
+                   f"the key the function is registered under does not depend on the `{kps[0]}` argument of {name}(): {indep}")
+        else:
+            vals = [model.key_const(fr, e, st) for e, fr, st in keys]
+            wrong = [("None" if v is _NONE_KEY else repr(v)) for v in vals if v is not None and (v is _NONE_KEY or isinstance(v, bool) or v != -1)]
+            if wrong:
+                ctx.ob("R9", "AGREE", M, T_KEY, False, f"catch_all() registers under the key {', '.join(wrong)}, but get_handlers falls back to the handlers kept under -1 (R2)")
+            elif any(v is None for v in vals):
+                ctx.undecided("R9", "AGREE", M, T_KEY, f"the key catch_all() registers under does not fold to a constant: {[src(inline(fr.fn, e))[:40] for e, fr, _s in keys]}")
+            else:
+                ctx.ob("R9", "AGREE", M, T_KEY, True, "catch_all() registers under -1, the key get_handlers falls back to")
